@@ -3,8 +3,10 @@ package core
 import (
 	"fmt"
 	"go/ast"
+	"go/constant"
 	"go/token"
 	"go/types"
+	"os"
 	"reflect"
 	"strings"
 )
@@ -43,6 +45,9 @@ func (f *Func) Inlined(keep ...string) *Func {
 	if in.count == 0 {
 		f.inlinedBy[key] = f
 		return f
+	}
+	if os.Getenv("PDFVERIF_NOSROA") == "" {
+		body = sroa(f.Pkg.TypesInfo, f, body)
 	}
 	decl := *f.Decl
 	decl.Body = body
@@ -752,6 +757,9 @@ func (in *inliner) expand(s ast.Stmt, call *ast.CallExpr, callee *Func, stack []
 type cloner struct {
 	info  *types.Info
 	subst map[types.Object]ast.Expr
+	// rewrite, when set, may replace a node before it is copied (the
+	// replacement is used as it is)
+	rewrite func(n ast.Node) ast.Node
 }
 
 var (
@@ -764,6 +772,11 @@ var (
 func (c *cloner) node(n ast.Node) ast.Node {
 	if n == nil || reflect.ValueOf(n).IsNil() {
 		return n
+	}
+	if c.rewrite != nil {
+		if r := c.rewrite(n); r != nil {
+			return r
+		}
 	}
 	if id, ok := n.(*ast.Ident); ok && c.subst != nil {
 		if obj := c.info.Uses[id]; obj != nil {
@@ -913,4 +926,305 @@ func (in *inliner) callSites(callee *Func) int {
 	p.mu.Lock()
 	defer p.mu.Unlock()
 	return p.refCount[callee.Obj]
+}
+
+// ---------------------------------------------------------------------------
+// Scalar replacement of small struct locals.
+//
+// A helper that returns its decisions in a small struct (claim :=
+// x.claimExclusive(key); switch { case claim.cached: ... case claim.own ==
+// nil: ... }) leaves, after inlining, a struct local that is only assigned
+// composite literals and only read field by field.  Such a local is replaced
+// by one local per field, so that the engines that follow constants, nil
+// and copies through locals (flag-aware reachability, GuardedBy, valueCases)
+// see the fields as what they are.
+
+type sroaVar struct {
+	obj    *types.Var
+	st     *types.Struct
+	fields []*types.Var // replacement locals, by field index
+}
+
+func sroa(info *types.Info, root *Func, body *ast.BlockStmt) *ast.BlockStmt {
+	// candidates: local struct variables
+	cands := map[types.Object]*sroaVar{}
+	bad := map[types.Object]bool{}
+	isCand := func(obj types.Object) *types.Struct {
+		v, ok := obj.(*types.Var)
+		if !ok || v.IsField() || v.Pkg() == nil || v.Parent() == v.Pkg().Scope() {
+			return nil
+		}
+		if _, isNamedPtr := v.Type().(*types.Pointer); isNamedPtr {
+			return nil
+		}
+		st, ok := v.Type().Underlying().(*types.Struct)
+		if !ok || st.NumFields() == 0 || st.NumFields() > 8 {
+			return nil
+		}
+		for i := 0; i < st.NumFields(); i++ {
+			if st.Field(i).Embedded() || sroaZero(info, st.Field(i).Type(), token.NoPos) == nil {
+				return nil
+			}
+		}
+		return st
+	}
+	// parameters and results are never replaced
+	if root.Decl.Type.Params != nil {
+		for _, f := range root.Decl.Type.Params.List {
+			for _, n := range f.Names {
+				bad[info.ObjectOf(n)] = true
+			}
+		}
+	}
+	if root.Decl.Type.Results != nil {
+		for _, f := range root.Decl.Type.Results.List {
+			for _, n := range f.Names {
+				bad[info.ObjectOf(n)] = true
+			}
+		}
+	}
+	if root.Decl.Recv != nil {
+		for _, f := range root.Decl.Recv.List {
+			for _, n := range f.Names {
+				bad[info.ObjectOf(n)] = true
+			}
+		}
+	}
+	okUse := map[*ast.Ident]bool{}
+	litOf := func(obj types.Object, e ast.Expr) bool {
+		cl, ok := ast.Unparen(e).(*ast.CompositeLit)
+		if !ok {
+			return false
+		}
+		t := info.TypeOf(cl)
+		return t != nil && types.Identical(t, obj.Type())
+	}
+	ast.Inspect(body, func(n ast.Node) bool {
+		switch x := n.(type) {
+		case *ast.FuncLit:
+			// a struct local touched inside a closure is left alone
+			ast.Inspect(x, func(m ast.Node) bool {
+				if id, ok := m.(*ast.Ident); ok {
+					if obj := info.ObjectOf(id); obj != nil {
+						bad[obj] = true
+					}
+				}
+				return true
+			})
+			return false
+		case *ast.AssignStmt:
+			if len(x.Lhs) == len(x.Rhs) && (x.Tok == token.ASSIGN || x.Tok == token.DEFINE) {
+				for i, l := range x.Lhs {
+					id, ok := ast.Unparen(l).(*ast.Ident)
+					if !ok {
+						continue
+					}
+					obj := info.ObjectOf(id)
+					if obj == nil || isCand(obj) == nil {
+						continue
+					}
+					if len(x.Lhs) == 1 && litOf(obj, x.Rhs[i]) {
+						okUse[id] = true
+					}
+				}
+			}
+		case *ast.ValueSpec:
+			for _, nm := range x.Names {
+				obj := info.ObjectOf(nm)
+				if obj == nil || isCand(obj) == nil {
+					continue
+				}
+				if len(x.Values) == 0 || (len(x.Names) == 1 && len(x.Values) == 1 && litOf(obj, x.Values[0])) {
+					okUse[nm] = true
+				}
+			}
+		case *ast.UnaryExpr:
+			if x.Op == token.AND {
+				// &v or &v.f: the address escapes
+				e := ast.Unparen(x.X)
+				if sel, ok := e.(*ast.SelectorExpr); ok {
+					e = ast.Unparen(sel.X)
+				}
+				if id, ok := e.(*ast.Ident); ok {
+					if obj := info.ObjectOf(id); obj != nil {
+						bad[obj] = true
+					}
+				}
+			}
+		case *ast.SelectorExpr:
+			if id, ok := ast.Unparen(x.X).(*ast.Ident); ok {
+				if obj := info.ObjectOf(id); obj != nil && isCand(obj) != nil {
+					if s := info.Selections[x]; s != nil && s.Kind() == types.FieldVal && len(s.Index()) == 1 {
+						okUse[id] = true
+					}
+				}
+			}
+		}
+		return true
+	})
+	ast.Inspect(body, func(n ast.Node) bool {
+		id, ok := n.(*ast.Ident)
+		if !ok {
+			return true
+		}
+		obj := info.ObjectOf(id)
+		if obj == nil {
+			return true
+		}
+		st := isCand(obj)
+		if st == nil {
+			return true
+		}
+		if !okUse[id] {
+			bad[obj] = true
+			return true
+		}
+		if cands[obj] == nil {
+			cands[obj] = &sroaVar{obj: obj.(*types.Var), st: st}
+		}
+		return true
+	})
+	for obj := range bad {
+		delete(cands, obj)
+	}
+	if len(cands) == 0 {
+		return body
+	}
+	for _, sv := range cands {
+		for i := 0; i < sv.st.NumFields(); i++ {
+			f := sv.st.Field(i)
+			sv.fields = append(sv.fields, types.NewVar(sv.obj.Pos(), sv.obj.Pkg(), sv.obj.Name()+"_"+f.Name(), f.Type()))
+		}
+	}
+	use := func(v *types.Var, pos token.Pos) *ast.Ident {
+		id := &ast.Ident{NamePos: pos, Name: v.Name()}
+		info.Uses[id] = v
+		info.Types[id] = types.TypeAndValue{Type: v.Type()}
+		return id
+	}
+	def := func(v *types.Var, pos token.Pos) *ast.Ident {
+		id := &ast.Ident{NamePos: pos, Name: v.Name()}
+		info.Defs[id] = v
+		return id
+	}
+	c := &cloner{info: info}
+	fieldValues := func(sv *sroaVar, lit *ast.CompositeLit, pos token.Pos) []ast.Expr {
+		vals := make([]ast.Expr, sv.st.NumFields())
+		if lit != nil {
+			for i, el := range lit.Elts {
+				if kv, ok := el.(*ast.KeyValueExpr); ok {
+					if k, ok := kv.Key.(*ast.Ident); ok {
+						for j := 0; j < sv.st.NumFields(); j++ {
+							if sv.st.Field(j).Name() == k.Name {
+								vals[j] = c.node(kv.Value).(ast.Expr)
+							}
+						}
+					}
+				} else if i < len(vals) {
+					vals[i] = c.node(el).(ast.Expr)
+				}
+			}
+		}
+		for j := range vals {
+			if vals[j] == nil {
+				vals[j] = sroaZero(info, sv.st.Field(j).Type(), pos)
+			}
+		}
+		return vals
+	}
+	c.rewrite = func(n ast.Node) ast.Node {
+		switch x := n.(type) {
+		case *ast.SelectorExpr:
+			if id, ok := ast.Unparen(x.X).(*ast.Ident); ok {
+				if sv := cands[info.ObjectOf(id)]; sv != nil {
+					if s := info.Selections[x]; s != nil && s.Kind() == types.FieldVal && len(s.Index()) == 1 {
+						return use(sv.fields[s.Index()[0]], x.Pos())
+					}
+				}
+			}
+		case *ast.AssignStmt:
+			if len(x.Lhs) == 1 && len(x.Rhs) == 1 {
+				if id, ok := ast.Unparen(x.Lhs[0]).(*ast.Ident); ok {
+					if sv := cands[info.ObjectOf(id)]; sv != nil {
+						lit, _ := ast.Unparen(x.Rhs[0]).(*ast.CompositeLit)
+						out := &ast.AssignStmt{TokPos: x.TokPos, Tok: x.Tok}
+						for _, fv := range sv.fields {
+							if x.Tok == token.DEFINE {
+								out.Lhs = append(out.Lhs, def(fv, x.Pos()))
+							} else {
+								out.Lhs = append(out.Lhs, use(fv, x.Pos()))
+							}
+						}
+						out.Rhs = fieldValues(sv, lit, x.Pos())
+						return out
+					}
+				}
+			}
+		case *ast.DeclStmt:
+			gd, ok := x.Decl.(*ast.GenDecl)
+			if !ok || gd.Tok != token.VAR {
+				return nil
+			}
+			changed := false
+			ng := &ast.GenDecl{TokPos: gd.TokPos, Tok: gd.Tok, Lparen: gd.Lparen, Rparen: gd.Rparen}
+			for _, sp := range gd.Specs {
+				vs, ok := sp.(*ast.ValueSpec)
+				if !ok || len(vs.Names) != 1 || cands[info.ObjectOf(vs.Names[0])] == nil {
+					ng.Specs = append(ng.Specs, c.node(sp).(ast.Spec))
+					continue
+				}
+				sv := cands[info.ObjectOf(vs.Names[0])]
+				changed = true
+				var lit *ast.CompositeLit
+				if len(vs.Values) == 1 {
+					lit, _ = ast.Unparen(vs.Values[0]).(*ast.CompositeLit)
+				}
+				vals := fieldValues(sv, lit, vs.Pos())
+				for j, fv := range sv.fields {
+					ng.Specs = append(ng.Specs, &ast.ValueSpec{Names: []*ast.Ident{def(fv, vs.Pos())}, Values: []ast.Expr{vals[j]}})
+				}
+			}
+			if changed {
+				if len(ng.Specs) > 1 && !ng.Lparen.IsValid() {
+					ng.Lparen, ng.Rparen = gd.Pos(), gd.End()
+				}
+				return &ast.DeclStmt{Decl: ng}
+			}
+		}
+		return nil
+	}
+	return c.node(body).(*ast.BlockStmt)
+}
+
+// sroaZero returns an expression for the zero value of a field type, or nil
+// when the type has no simple zero literal.
+func sroaZero(info *types.Info, t types.Type, pos token.Pos) ast.Expr {
+	switch u := t.Underlying().(type) {
+	case *types.Pointer, *types.Interface, *types.Slice, *types.Map, *types.Chan, *types.Signature:
+		id := &ast.Ident{NamePos: pos, Name: "nil"}
+		info.Uses[id] = types.Universe.Lookup("nil")
+		info.Types[id] = types.TypeAndValue{Type: t}
+		return id
+	case *types.Basic:
+		switch {
+		case u.Info()&types.IsBoolean != 0:
+			id := &ast.Ident{NamePos: pos, Name: "false"}
+			info.Uses[id] = types.Universe.Lookup("false")
+			info.Types[id] = types.TypeAndValue{Type: t, Value: constant.MakeBool(false)}
+			return id
+		case u.Info()&types.IsInteger != 0:
+			lit := &ast.BasicLit{ValuePos: pos, Kind: token.INT, Value: "0"}
+			info.Types[lit] = types.TypeAndValue{Type: t, Value: constant.MakeInt64(0)}
+			return lit
+		case u.Info()&types.IsString != 0:
+			lit := &ast.BasicLit{ValuePos: pos, Kind: token.STRING, Value: `""`}
+			info.Types[lit] = types.TypeAndValue{Type: t, Value: constant.MakeString("")}
+			return lit
+		case u.Info()&types.IsFloat != 0:
+			lit := &ast.BasicLit{ValuePos: pos, Kind: token.FLOAT, Value: "0.0"}
+			info.Types[lit] = types.TypeAndValue{Type: t, Value: constant.MakeFloat64(0)}
+			return lit
+		}
+	}
+	return nil
 }
